@@ -137,6 +137,7 @@ timeout: 150
 funcs: spif_mbuff_init_from_buff
 */
 #include "vprelude.h"
+#include "env_mbuff.h"
 #include "mbuff.h"
 #include "src/obj.c"
 #include "src/mbuff.c"
